@@ -1,4 +1,4 @@
-from .common import TOPO_REQUIRED, grid_plan, need_classes
+from .common import pytest_contracts_job, TOPO_REQUIRED, grid_plan, need_classes
 
 LEVEL = "exploration"
 RULE = (
@@ -10,9 +10,28 @@ ASSUMPTIONS = ["eq.psi is the reference flux function", "segment end points are 
 
 
 def plan(tier, seed):
-    return grid_plan(tier, seed, "C05")
+    p_ = _plan(tier, seed)
+    if tier == "thorough":
+        p_.setdefault("jobs", []).append(pytest_contracts_job())
+    return p_
+
+
+def _plan(tier, seed):
+    from .. import cases
+
+    p = grid_plan(tier, seed, "C05")
+    ladder = []
+    for nf in ((50, 100, 200) if tier == "quick" else (50, 100, 200, 400)):
+        ladder.append(cases.tok("lsn", s=1, fs=1, tag="c05-nfine-%d" % nf, finecontour_Nfine=nf))
+    p["cases"] = p["cases"] + ladder
+    p["jobs"] = [{"name": "c05-nfine-ladder", "module": "vmon.jobs.ladder", "args": {"mode": "nfine", "cases": ladder, "cls": "Nfine ladder"}, "timeout": 1200}]
+    if tier == "thorough":
+        l2 = [cases.tok("cdn", s=-1, fs=1, orth=False, tag="c05-nfine-cdn-%d" % nf, finecontour_Nfine=nf) for nf in (50, 100, 200, 400)]
+        p["cases"] += l2
+        p["jobs"].append({"name": "c05-nfine-ladder-cdn", "module": "vmon.jobs.ladder", "args": {"mode": "nfine", "cases": l2, "cls": "Nfine ladder"}, "timeout": 1800})
+    return p
 
 
 def required(tier, classes, records):
-    pats = list(TOPO_REQUIRED) + [("circular core", r"^circ\|")]
+    pats = list(TOPO_REQUIRED) + [("circular core", r"^circ\|"), ("finecontour_Nfine ladder", r"Nfine ladder")]
     return need_classes(classes, pats)
